@@ -75,7 +75,8 @@ def build_impl(san="asan"):
             return lib, None
         # drop older caches of the same sanitizer kind (disk is limited)
         for old in glob.glob(os.path.join(WORK, "build", f"*-{san}")):
-            if old != bdir:
+            # only stale ones: a concurrent check may still be using a cache built minutes ago
+            if old != bdir and time.time() - os.path.getmtime(old) > 3 * 3600:
                 shutil.rmtree(old, ignore_errors=True)
         os.makedirs(bdir, exist_ok=True)
         t0 = time.time()
